@@ -2144,6 +2144,10 @@ func (self *LockDB) Lock(serverProtocol ServerProtocol, command *protocol.LockCo
 					return nil
 				}
 
+				// a further level of a hold is granted at once, it does not wait for acknowledgements: the
+				// record it writes must not enter the acknowledgement bookkeeping, whose reference counts
+				// belong to a hold that was granted through it
+				command.TimeoutFlag &^= protocol.TIMEOUT_FLAG_REQUIRE_ACKED
 				lockManager.locked++
 				currentLock.locked++
 				currentLockCommand := currentLock.command
